@@ -148,6 +148,61 @@ def cond_facts(cond: tuple | None, classify: Callable[[ast.AST], str | None]) ->
     return out
 
 
+_POS = {ast.NotEq: ast.Eq, ast.NotIn: ast.In, ast.IsNot: ast.Is, ast.LtE: ast.Gt, ast.GtE: ast.Lt}
+
+
+def cond_fact_alternatives(cond: tuple | None, classify: Callable[[ast.AST], str | None], cap: int = 64) -> list[list[tuple[str, bool]]]:
+    """The facts implied by taking an edge, in disjunctive normal form: a list of alternatives, each a consistent list of
+    (key, truth).  `a and b` taken false is `a false` or `a true, b false` (exactly the short-circuit evaluation), so a
+    flattened guard `if p() and not q: raise` gives the same facts as the nested `if p(): if not q: raise`."""
+    if cond is None:
+        return [[]]
+    expr, pol = cond[0], cond[-1]
+    if not isinstance(expr, ast.AST) or not isinstance(pol, bool):
+        return [[]]
+
+    def conj(a, b):
+        out = []
+        for x in a:
+            for y in b:
+                d = dict(x)
+                ok = True
+                for k, v in y:
+                    if d.get(k, v) != v:
+                        ok = False
+                        break
+                    d[k] = v
+                if ok:
+                    out.append(sorted(d.items()))
+        return out[:cap]
+
+    def go(e, p):
+        if isinstance(e, ast.UnaryOp) and isinstance(e.op, ast.Not):
+            return go(e.operand, not p)
+        if isinstance(e, ast.BoolOp):
+            all_way = (isinstance(e.op, ast.And) and p) or (isinstance(e.op, ast.Or) and not p)
+            if all_way:
+                acc = [[]]
+                for v in e.values:
+                    acc = conj(acc, go(v, p))
+                return acc
+            # the operands before the deciding one evaluated the other way
+            out = []
+            prefix = [[]]
+            for v in e.values:
+                out.extend(conj(prefix, go(v, p)))
+                prefix = conj(prefix, go(v, not p))
+            return out[:cap]
+        k = classify(e)
+        if k is None and isinstance(e, ast.Compare) and len(e.ops) == 1 and type(e.ops[0]) in _POS:
+            return go(ast.copy_location(ast.Compare(left=e.left, ops=[_POS[type(e.ops[0])]()], comparators=e.comparators), e), not p)
+        if k is None:
+            return [[]]
+        return [[(k[1:], not p)]] if k.startswith("!") else [[(k, p)]]
+
+    return go(expr, pol)
+
+
 def feasible_paths_exist(
     g: CFG,
     src: int,
@@ -193,24 +248,25 @@ def feasible_paths_exist(
             m = e.dst
             if avoid is not None and avoid(m):
                 continue
-            nf = dict(fd)
-            ok = True
-            for k, v in cond_facts(e.cond, classify):
-                if k in nf and nf[k] != v:
-                    ok = False
-                    break
-                nf[k] = v
-            if not ok:
-                continue
-            if kills is not None:
-                for k in kills(m):
-                    nf.pop(k, None)
-            if gens is not None:
-                nf.update(gens(m))
-            st = (m, frozenset(nf.items()))
-            if st not in seen:
-                seen[st] = state
-                dq.append(st)
+            for alt in cond_fact_alternatives(e.cond, classify):
+                nf = dict(fd)
+                ok = True
+                for k, v in alt:
+                    if k in nf and nf[k] != v:
+                        ok = False
+                        break
+                    nf[k] = v
+                if not ok:
+                    continue
+                if kills is not None:
+                    for k in kills(m):
+                        nf.pop(k, None)
+                if gens is not None:
+                    nf.update(gens(m))
+                st = (m, frozenset(nf.items()))
+                if st not in seen:
+                    seen[st] = state
+                    dq.append(st)
     return None
 
 
